@@ -125,6 +125,31 @@ CLAIMED["C05"] = (
     "TLC/SANY; snappy and protobuf observed only through lengths and SHA-256 digests; stored chunks whose raw bytes are themselves valid "
     "snappy are not generated (ambiguous by the format's own 'try to uncompress' rule)",
     "DESIGN.md §4 C05")
+CLAIMED["C02"] = (
+    "TLC model checking of Lifecycle.tla (open / read-only accessors / save / reopen over opaque observations, with mutants); every generated "
+    "schedule class run on every readable fixture, the template and API-built documents; observations of fresh instances judged by TLC (Trace_Lifecycle)",
+    "Lifecycle.tla states SaveIsIdentity, AccessIsReadOnly and Idempotent over schedules of up to three saves with any subset/order of the seven "
+    "accessor kinds; TLC enumerates the schedules (they are the histories quantifier) and refutes the AccessMutates / DirtySave variants. Each "
+    "(document, schedule) case is executed on the real library; after every save a fresh instance of the written file is observed cell by cell "
+    "(type, value, formula text or exception class, formatted value, bullets/hyperlinks, merge state, merge ranges) and TLC requires the "
+    "observation to equal the pristine source's, component by component, at every save of every cycle; exemptions come only from the "
+    "library's own save-time warnings.",
+    "TLC/SANY; per-table component digests (SHA-256 of canonical per-cell records) stand for the observation, cell-level diffs are reported "
+    "on rejection; accessors that raise on a document (Cell.style on unknown fonts) are noted, not judged",
+    "DESIGN.md §4 C02")
+CLAIMED["C06"] = (
+    "TLC model checking of DataList.tla and RowMap.tla with every state materialised as a real file and read through the library; "
+    "Lifecycle.tla Rewrite/LayoutBlind; compositions of layout rewrites applied to fixtures and API-built documents by the harness's own "
+    "zip/IWA code, rewritten copies observed through the library and judged by TLC (Trace_Lifecycle)",
+    "DataList.tla (the indexer loop: all permutations with gaps; AllIndexed, IndexPointsAtEntry, NextKeyFresh) and RowMap.tla (which rows are "
+    "stored, which empty rows carry header records, tiles; RowAtDeclaredIndex) are checked exhaustively and their pinned-tree mutants "
+    "refuted; every list / store state is written into a real document's archives and read back through Table.cell. The metamorphic "
+    "relation: eleven rewrites (list permutation, re-chunking, zip order, compression method, package vs single file, narrow/wide offsets, "
+    "header records for empty rows) singly and in compositions of 2-3 on every readable fixture, the template and API-built documents; "
+    "the rewritten copy's observation (C02's) must equal the original's by sheet/table name and component.",
+    "TLC/SANY; the rewriter (validated by its own reader: same object ids before/after); tile size 2 of the model is scaled to 256; "
+    "silent-fallback wrappers of DESIGN.md are not installed (the observation itself shows a fallback as a changed value)",
+    "DESIGN.md §4 C06")
 NOT_YET = "check not built yet in this round (planned: see DESIGN.md section for this property)"
 NA = {}
 
